@@ -599,7 +599,15 @@ func c03Plumbing(c *Ctx) {
 						conds = append(conds, ins)
 					}
 				case modPath + "/" + compilerPkg + ".Optimizer.OptimizeStatements":
-					if fromField(cl.Call.Args[1], typ, "Body") {
+					// the call whose result becomes the optimised loop's body (hoisted invariant statements are optimised - and
+					// run - before the loop)
+					becomesBody := false
+					for _, r := range refs(cl) {
+						if st, ok := r.(*ssa.Store); ok && isStoreToField(st, typ, "Body") {
+							becomesBody = true
+						}
+					}
+					if becomesBody {
 						bodies = append(bodies, ins)
 					}
 				}
